@@ -35,6 +35,8 @@ type CaseC16 struct {
 	// the documented default (food.yaml / log.yaml); it must still win over the configuration file
 	DefaultSpelling bool   `json:"default_spelling,omitempty"`
 	Only            string `json:"only,omitempty"`
+	// CfgFifo: the configuration file is a FIFO / process substitution: it reports size 0 and delivers its bytes a few at a time
+	CfgFifo bool `json:"cfg_fifo,omitempty"`
 	// Order is the map-order schedule: which source wins must not depend on the order in which a table of settings is walked
 	Order OrderPlan `json:"order"`
 }
@@ -71,6 +73,7 @@ func genC16(thorough bool) func(t *rapid.T) Case {
 		c.DefaultSpelling = rapid.IntRange(0, 3).Draw(t, "default_spelling") == 3
 		c.CfgSymlink = rapid.IntRange(0, 2).Draw(t, "cfg_symlink") == 2
 		c.Order = OrderPlan{Mode: rapid.SampledFrom([]string{"asc", "desc", "shuffle", "rotate"}).Draw(t, "order"), Seed: rapid.Uint64().Draw(t, "order_seed"), Arg: 1}
+		c.CfgFifo = rapid.IntRange(0, 3).Draw(t, "cfg_fifo") == 3
 		return c
 	}
 }
@@ -190,7 +193,12 @@ func (c *CaseC16) build(cell cellC16, argvTail []string, logLayout string, chain
 		if c.CfgSymlink {
 			kind = "symlink"
 		}
-		w.Files = append(w.Files, FileSpec{Path: cfgPath, Kind: kind, Data: ini.String(), Plan: ReadPlan{FaultAt: -1}})
+		spec := FileSpec{Path: cfgPath, Kind: kind, Data: ini.String(), Plan: ReadPlan{FaultAt: -1}}
+		if c.CfgFifo {
+			spec.StatSize = new(int64)
+			spec.Plan = ReadPlan{FaultAt: -1, Chunk: "fixed", MaxChunk: 7}
+		}
+		w.Files = append(w.Files, spec)
 	}
 	w.Argv = append(append([]string{"hranoprovod-cli"}, g...), argvTail...)
 	return w
